@@ -1,6 +1,6 @@
 """C14 — signals reach every connected handler exactly once per emit.
 
-Four sub-checks share one interpreter (``run_machine``) that drives the real signal machinery and a
+Five sub-checks share one interpreter (``run_machine``) that drives the real signal machinery and a
 list model of the connections side by side:
 
 * ``hist``    exhaustive enumeration of bounded histories of connect / disconnect(args) /
@@ -12,6 +12,18 @@ list model of the connections side by side:
               and over the way the arguments are handed over: list / tuple / one-shot generator at
               connect (a list is afterwards left alone, extended or emptied by the caller) x list /
               tuple / generator at disconnect(args); every connection is emitted to several times.
+              The other documented spellings of "connect" belong to the same sweep: the legacy positional
+              ``connect_signal(obj, name, callback, user_arg)`` (every value of user_arg in {0, False, "", [],
+              0.0, "x", 9} x the shapes of the other arguments; undone with ``disconnect_signal(obj, name,
+              callback, user_arg)``) and the constructor shorthand of Button / CheckBox / RadioButton
+              (``on_press`` / ``on_state_change`` [+ ``user_data``], undone the way their docstrings say).
+* ``reg``     "registered for the sender's class": every spelling of the registration (``signals`` class
+              attribute on a MetaSignals class, a subclass, a third-level subclass, a list subclass, widget
+              subclasses; explicit ``register_signal(cls, names)`` after the class definition for a plain class
+              and for Widget subclasses, which the metaclass has registered before) x every sequence of <= 2
+              further ``register`` calls for the class (same names / one more / first only / second only /
+              none; list / tuple / frozenset): after each, a connect is accepted exactly for the names of
+              the latest registration; connections made before go on being served.
 * ``moment``  "weak arguments are garbage-collected at any moment": one operation (connect to the
               same / another name / another sender / an unregistered name, disconnect(args) of the
               first / middle / last / an unconnected handler, disconnect_by_key likewise, emit) on a
@@ -23,7 +35,10 @@ list model of the connections side by side:
               connections, per-connection tags, ``del weak_arg; gc.collect()`` at generated points
               (top level, inside handlers, i.e. collection mid-emit, and - op ``arm`` - at the k-th
               line of signals.py executed by the next operation), sender drops, no-op disconnects,
-              unregistered-name connects, list / tuple / generator argument containers per handler.
+              unregistered-name connects, list / tuple / generator argument containers per handler,
+              legacy user_arg per handler, widgets built with the constructor shorthand (rebuilt after a
+              sender drop), ``reg`` (register the sender's class again), ``p`` (the Button emits by itself:
+              keypress "enter"), ``dc`` (disconnect the constructor's connection by its arguments).
 
 Oracle (per emit "frame", nested emits are frames of their own):
   S = model list of the slot when the emit starts; a connection is *touched* if it is removed
@@ -31,12 +46,15 @@ Oracle (per emit "frame", nested emits are frames of their own):
   connected to the slot while the frame is active.  T = S minus touched = "connected throughout".
   - the calls made by this frame, restricted to the signatures of T, are exactly T in order, once each
   - every call's arguments are weak_args + user_args + emitted args of some connection in S or added
+    (+ the legacy user_arg / user_data of that connection after the emitted arguments, where the docstring
+    of connect_signal puts it)
   - a callback that is neither in S nor added (disconnected before the emit, other slot, never
     connected) is not called
   - bool(result) == any(bool(r) for r in returns of the handlers this frame ran)
   Nothing is asserted about touched / added connections (the statement is silent): when an untouched
   connection has the same signature (callback + arguments) as a touched or added one, that signature is
   left out of the once/in-order comparison as well (calls cannot be attributed).
+connect: accepted if the name is in the latest list registered for the sender's class, NameError otherwise.
 No-op disconnects are performed on the real object only (model unchanged) and judged by later emits.
 disconnect(args) is never applied when two connections of the slot carry the same callback and
 arguments (the docs do not say which is removed); disconnect_by_key is used for those.
@@ -64,17 +82,26 @@ RULE = (
     "disconnects itself, disconnects previous, disconnects next, connects a new handler, emits "
     "recursively} to the handlers that get connected (handler 1 hands its arguments over as one-shot "
     "generators, handler 2 as a list it extends afterwards and disconnects with a tuple); args: all argument shapes (weak 0-2 x user 0-2 x "
-    "emitted 0-2 x func/method x API x 5 sender kinds) plus all ways of handing the arguments over "
+    "emitted 0-2 x func/method x API x 11 sender kinds) plus all ways of handing the arguments over "
     "(connect with list / list extended afterwards / list emptied afterwards / tuple / one-shot generator x "
-    "disconnect(args) with list / tuple / generator x weak 0-2 x user 0-2 x func/method); moment: 14 "
+    "disconnect(args) with list / tuple / generator x weak 0-2 x user 0-2 x func/method) plus the legacy "
+    "positional user_arg (7 values, 5 of them false but not None, x weak 0-1 x user 0-2 x emitted 0-2 x "
+    "func/method x API) plus the constructor shorthand of Button (2 subclasses) / CheckBox / RadioButton "
+    "(no user_data and the 7 values x func/method; emits by emit_signal and, for buttons, by keypress; "
+    "disconnect_signal(widget, name, callback [, user_data]); widget dropped and rebuilt); reg: 11 sender "
+    "kinds (signals attribute at level 1 / 2 / 3 of a hierarchy, list subclass, widget subclasses, "
+    "register_signal() after the definition of a plain class / a WidgetWrap subclass / a Button subclass) "
+    "x API x every sequence of <= 2 further register() calls (5 name lists) x list / tuple / frozenset, "
+    "each followed by connects to 3 names on 2 senders and emits; moment: 14 "
     "operations (connect same slot / other name / other sender / unregistered, disconnect(args) first / "
     "middle / last / unconnected, disconnect_by_key first / middle / last / other name, emit same / other "
     "name) on a slot with three connections x every line of urwid/signals.py the operation executes "
     "(line events of sys.settrace, counted per operation on the tree under test) x which of 4 weak "
     "arguments loses its last reference (+ gc.collect()) at that line x API x 3 sender kinds, followed by "
     "emits, a further connect and disconnects; machine: Hypothesis op lists <= 25 ops over 2 "
-    "senders (5 kinds) x 2 names x 3-5 parametrised handlers (argument container list / tuple / generator, "
-    "list mutated after connect) with weak-argument drops + gc.collect() at top level, inside handlers and "
+    "senders (11 kinds, widgets optionally built with the constructor shorthand) x 2 names (+ a third, "
+    "normally unregistered one) x 3-5 parametrised handlers (argument container list / tuple / generator, "
+    "list mutated after connect, legacy user_arg) with register-again, emit-by-keypress, weak-argument drops + gc.collect() at top level, inside handlers and "
     "('arm') at the k-th signals.py line of the next operation, sender drops, duplicates, no-op disconnects, "
     "unregistered names. "
     "Non-trivial: the history contains an emit on a slot to which a handler that changes the handler "
@@ -88,7 +115,22 @@ ASSUMPTIONS = [
     "arguments in its logs",
     "disconnect(args) on a slot holding two connections with identical callback and arguments is not "
     "generated (docs silent on which one is removed)",
-    "callbacks do not raise; the deprecated user_arg parameter is not used",
+    "callbacks do not raise",
+    "the deprecated positional user_arg of connect_signal / disconnect_signal and the on_press / on_state_change "
+    "[, user_data] constructor arguments of Button, CheckBox and RadioButton are documented, still supported "
+    "spellings of connect: they are generated; their argument is expected where the docstring of connect_signal "
+    "puts it ('appended after the arguments passed when the signal is emitted'; None = no argument), compared "
+    "by type and repr; disconnect(args) treats 0 / False / 0.0 as the same argument (urwid compares with ==), so "
+    "it is not generated when two connections differ only in that; the DeprecationWarning is filtered",
+    "register_signal(cls, names) may be called again for a class (for a Widget subclass the documented explicit "
+    "call always is a second registration, the metaclass having made the first): the latest list is 'the names "
+    "registered for the class'; connections made under an earlier list stay connected (nothing in the text "
+    "disconnects them); such histories use classes built for the case, which the harness afterwards removes "
+    "from the module-level Signals object's private _supported dict (housekeeping only)",
+    "a rejected connect raises NameError; where a widget constructor makes the connect before the widget is "
+    "complete (CheckBox, RadioButton) AttributeError from formatting the message counts as rejection too",
+    "widgets built with the constructor shorthand are only used with the module-level API (their constructors "
+    "call it); a Button 'pressed' is keypress((10,), 'enter'), whose emit result cannot be observed",
     "handlers connected from inside a handler are connected to handlers that cannot connect further "
     "handlers to the slot being emitted without bound (target index strictly larger), recursion depth "
     "<= 2, so every history terminates; a history making more than 400 callback calls is discarded",
@@ -176,6 +218,14 @@ def _build(kind, fresh=False, created=None):
 
         made.append(SenderSub)
         out = (SenderSub, ("a", "c"), ["c", "a", "b"])
+    elif kind == "sub3":
+        base = _build("sub", fresh, made)[0]
+
+        class SenderLeaf(base):
+            signals = ["d"]  # noqa: RUF012   third level: "c" and, through the middle class, "a", "b" are inherited
+
+        made.append(SenderLeaf)
+        out = (SenderLeaf, ("a", "d"), ["d", "c", "a", "b"])
     elif kind == "list":
 
         class SenderList(list, metaclass=urwid.MetaSignals):
@@ -222,7 +272,7 @@ def _build(kind, fresh=False, created=None):
     return out
 
 
-KIND_NAMES = ["meta", "reg", "sub", "list", "edit", "lwid", "button", "lbtn", "checkbox", "radio"]
+KIND_NAMES = ["meta", "reg", "sub", "sub3", "list", "edit", "lwid", "button", "lbtn", "checkbox", "radio"]
 KINDS = {kind: _build(kind) for kind in KIND_NAMES}
 # widgets whose constructor is a documented shorthand for connect_signal(widget, <first name>, callback, user_data)
 CTOR_KINDS = ("button", "lbtn", "checkbox", "radio")
@@ -405,9 +455,11 @@ class State:
         if self.name(s, 0) not in self.registered[kind]:
             # the class has been registered again without the name the shorthand connects to: rejected like
             # any other connect (the widget is then built without the shorthand)
+            # "rejected" = an exception: CheckBox / RadioButton connect before the widget is complete, and the
+            # NameError message wants the repr of that half-built widget, which raises AttributeError instead
             try:
                 _make_sender(kind, self.cls[kind][0], self.callback(h), ua)
-            except NameError:
+            except (NameError, AttributeError):
                 _count("dyn:unregistered-connect-rejected")
             else:
                 raise Violation(
@@ -895,6 +947,8 @@ def run_machine(case):
                 for cls in state.created:
                     supported.pop(cls, None)
             state.created, state.cls = [], {}
+            del cls
+            gc.collect()  # classes are cycles; inside a campaign only this case's objects are looked at
     if state.deferred is not None:
         state.deferred.injected, state.deferred.tainted = list(state.injected), set(state.tainted)
         raise state.deferred
